@@ -67,6 +67,8 @@ JudgeFunc ==
      /\ Clause("EndGradientsAsRequested", \A e \in {"lo", "hi"} : Obs.endg[e].req = 0 \/ AbsI(Obs.endg[e].got - 1000000) <= Obs.endg[e].tol)
      \* also strictly increasing on the extension beyond wall ends that holds the boundary guard cells
      /\ Clause("IncreasingOverGuardCells", Obs.ext_ok = 1)
+     \* ... and continues it with the same slope at the wall end (ratio of the one-sided differences outside and inside, 1e-6 relative)
+     /\ Clause("SlopeContinuousIntoGuardCells", \A e \in {"lo", "hi"} : Obs.smooth[e].req = 0 \/ AbsI(Obs.smooth[e].got - 1000000) <= 3000)
 
 \* kind "ends": the y-face positions of every region of a non-orthogonal mesh (quantised at 1e-9 m), A: as first built,
 \* B: after a history of redistributePoints calls.  The two end points of every contour (the wall or X-point end: index G beyond
